@@ -133,3 +133,12 @@ pub fn hashmap_into_vec<V>(m: HashMap<u64, V>) -> (r: Vec<(u64, V)>)
         forall|k: u64| m@.contains_key(k) ==> exists|j: int| 0 <= j < r.len() && (#[trigger] r[j]).0 == k,
         forall|i: int, j: int| 0 <= i < j < r.len() ==> (#[trigger] r[i]).0 != (#[trigger] r[j]).0,
 { m.into_iter().collect() }
+// BTreeMap::entry(k).and_modify(|v| *v += c).or_insert(c): accumulate c under key k; returns the stored value (T4; closures taking &mut are outside Verus)
+#[verifier::external_body]
+pub fn btreemap_add_or_insert<K: Ord + Clone>(m: &mut BTreeMap<K, F64>, k: K, c: F64) -> (r: F64)
+    ensures final(m)@ == old(m)@.insert(k, r),
+        old(m)@.contains_key(k) ==> r@ == xr_add(old(m)@[k]@, c@),
+        !old(m)@.contains_key(k) ==> r == c,
+{ let v = m.entry(k).and_modify(|v| v.v += c.v).or_insert(c); *v }
+#[verifier::external_body]
+pub fn vec_to_btreeset(v: Vec<u64>) -> (r: BTreeSet<u64>) ensures r@ =~= v@.to_set() { v.into_iter().collect() }
